@@ -320,7 +320,11 @@ func (s *storage) bootstrap(config Config) (err error) {
 	}()
 	s.appendEntry(config.encode())
 	s.commitLog(1)
-	s.setTerm(1)
+	if s.term < 1 {
+		// we might be in later term already, if we have
+		// replied to vote requests before the bootstrap
+		s.setTerm(1)
+	}
 	s.lastLogIndex, s.lastLogTerm = config.Index, config.Term
 	return nil
 }
